@@ -58,13 +58,23 @@ def escStr (s : String) : String :=
   String.join (s.toList.map fun c =>
     if c == '"' then "\\\"" else if c == '\\' then "\\\\" else if c == '\n' then "\\n" else String.singleton c)
 
+def showSpec : CbModel.Render.ISpec → String
+  | .plain => ""
+  | .hex false => ":x"
+  | .hex true => ":X"
+  | .bin => ":b"
+  | .dec true w => ":0" ++ toString w ++ "d"
+  | .dec false w => ":" ++ toString w ++ "d"
+
 def showItem : PItem → String
   | .str s => "\"" ++ escStr s ++ "\""
   | .expr e => showExpr e
+  | .exprF e _ => showExpr e
 
 def showIPart : PItem → String
-  | .str s => escStr s
+  | .str s => escStr (String.ofList (CbModel.Render.escBraces s.toList))
   | .expr e => "{" ++ showExpr e ++ "}"
+  | .exprF e sp => "{" ++ showExpr e ++ showSpec sp ++ "}"
 
 def ind (n : Nat) : String := String.ofList (List.replicate (4 * n) ' ')
 
@@ -87,6 +97,9 @@ partial def showStmt (n : Nat) (s : Stmt) : String :=
   | .expr e => ind n ++ showExpr e ++ ";\n"
   | .print items => ind n ++ "println(" ++ String.intercalate ", " (items.map showItem) ++ ");\n"
   | .printI parts => ind n ++ "println(\"" ++ String.join (parts.map showIPart) ++ "\");\n"
+  | .printF fmt args =>
+      ind n ++ "println(\"" ++ escStr fmt ++ "\"" ++ String.join (args.map fun a => ", " ++ showItem a) ++ ");\n"
+  | .printRaw items => ind n ++ "print(" ++ String.intercalate ", " (items.map showItem) ++ ");\n"
   | .ifS c t e =>
       ind n ++ "if (" ++ showExpr c ++ ") {\n" ++ showStmts (n + 1) t ++ ind n ++ "}" ++
       (match e with
